@@ -2336,6 +2336,16 @@ __make_evrdat(echs_event_t e, const echs_instant_t *d, size_t nd)
 		}
 		/* now sort */
 		echs_instant_sort(rd, nd);
+		/* the recurrence set is a set, an instant that is listed
+		 * more than once (or in several notations) counts once */
+		with (size_t j = 0U) {
+			for (size_t i = 1U; i < nd; i++) {
+				if (!echs_instant_eq_p(rd[j], rd[i])) {
+					rd[++j] = rd[i];
+				}
+			}
+			nd = j + 1U;
+		}
 		/* now spread out the instants as echs events */
 		for (size_t i = 0U; i < nd; i++) {
 			e.from = echs_instant_rescale(rd[i], cal);
